@@ -42,6 +42,9 @@ var replayAdapters = map[string]func(eng *Engine, a *obAgg, f *Oblig, replay map
 // fixedReplays: obligations whose counterexample is schedule/sequence shaped (not a function input): a hand-written
 // adapter drives the real code through the scenario the failed obligation describes.
 var fixedReplays = map[string]struct{ tmpl, pkg, run string }{
+	"messageForSigning/post/signed-message-covers-the-genesis-seed":          {"C09_dkg_auth_test.go.tmpl", "internal/dkg", "TestVerifReplayC09GenesisSeedNotSigned"},
+	"messageForSigning/post/signed-message-covers-every-participant-key":     {"C09_dkg_auth_test.go.tmpl", "internal/dkg", "TestVerifReplayC09ParticipantKeyNotSigned"},
+	"validateReshareForRemainers/post/remaining-and-leaving-members-carry-the-keys-recorded-in-the-current-group": {"C09_dkg_auth_test.go.tmpl", "internal/dkg", "TestVerifReplayC09OutsiderProposesAsLeader"},
 	"GroupFromProto/post/decoded-group-packet-threshold-is-at-most-the-node-count": {"C20_group_packet_threshold_test.go.tmpl", "common/key", "TestVerifReplayC20GroupPacketThreshold"},
 	"NewDKGStore/assert/dkg-database-is-created-owner-only": {"C15_dkgdb_mode_test.go.tmpl", "internal/dkg", "TestVerifReplayC15DKGDBMode"},
 	"(*trimmedBoltCursor).Seek/post/trimmed-seek-never-mislabels": {"C18_trimmed_seek_test.go.tmpl", "internal/chain/boltdb", "TestVerifReplayC18TrimmedSeek"},
